@@ -137,11 +137,39 @@ def run(tier, seed, model):
                                                       f"client flags {flags} / size {scr and scr[0]}"})
         if len(camp.samples) < 4 and i % 151 == 0:
             camp.samples.append({"mode": mode, "nocursor": nocursor, "ops": [[o[0]] + [x if not isinstance(x, bytes) else f"{len(x)}B" for x in o[1:]] for o in ops[:6]]})
+    far_edges(camp, rng)
     camp.rule = ("random histories of 1..24 updateRectangle / fillRectangle / updateDesktopSize / updateCursor calls on the real "
                  "VNCDoToolClient (first rectangle off the origin, rectangles beyond the image, overlaps, sizes incl. 0, resizes up "
                  "and down, every image mode, nocursor on/off); client.screen compared byte-exactly with the reference composition "
                  "(when no cursor is composited) and with the Coq screen model (always); non-trivial = history judged by the oracle")
     return camp
+
+
+def far_edges(camp, rng):
+    """x, y, width and height are U16 each: a rectangle may end at 65535 + 65535; thin canvases keep this cheap"""
+    def px(n, bpp=4):
+        return bytes(rng.getrandbits(8) for _ in range(n * bpp))
+    histories = [
+        [("upd", 0, 0, 2, 2, px(4)), ("upd", 65531, 0, 4, 1, px(4)), ("upd", 65535, 0, 1, 1, px(1)), ("upd", 65532, 1, 4, 1, px(4)),
+         ("upd", 3, 1, 2, 1, px(2))],
+        [("upd", 65535, 3, 1, 1, px(1)), ("upd", 0, 0, 2, 1, px(2))],
+        [("upd", 0, 0, 2, 2, px(4)), ("upd", 0, 65535, 1, 2, px(2)), ("fill", 1, 65534, 1, 3, px(1))],
+        [("upd", 0, 0, 1, 1, px(1)), ("fill", 65534, 0, 2, 2, px(1)), ("upd", 65535, 1, 1, 1, px(1))],
+        [("resize", 65535, 1), ("upd", 65535, 0, 3, 1, px(3))],
+    ]
+    for ops in histories:
+        camp.evaluations += 1
+        camp.count("far-edge-history")
+        camp.nontrivial.add(("far", len(ops), ops[0][1:5]))
+        flags, scr = run_real("RGBX", True, ops)
+        ref = reference("RGBX", ops)
+        if any(flags) or scr != ref:
+            camp.oracle_failures.append({"kind": "oracle", "property": "C12", "case": {
+                "mode": "RGBX", "nocursor": True, "ops": [[o[0]] + [x.hex() if isinstance(x, bytes) else x for x in o[1:]] for o in ops]},
+                "what": f"rectangles reaching beyond coordinate 65535 ({[o[:5] for o in ops]}): "
+                        + (f"operation #{flags.index(1)} raised" if any(flags) else
+                           f"screen {scr and scr[0]} differs from the composition of what was sent {ref and ref[0]}")})
+            return
 
 
 def replay(payload):
